@@ -641,4 +641,24 @@ theorem sgrRun_grammar (cfg : Cfg) (hs : cfg.sgrStrict = true) (st : PState) (n 
       rw [e]
       exact okFrom_fin s c x y btn rel hstep
 
+/-- conversely, either variant of the loop completes on every report remainder, exactly at its last byte, whatever follows -/
+theorem sgrRun_of_grammar (cfg : Cfg) (st : PState) (t : Bytes) :
+    ∀ (r : Bytes) (s : SgrSt) (i : Nat), okFrom s r = true →
+      ∃ evs st', sgrRun cfg st s (r ++ t) i = .complete (i + r.length) evs st' := by
+  intro r
+  induction r with
+  | nil => intro s i h; rw [okFrom_nil] at h; cases h
+  | cons c rest ih =>
+    intro s i h
+    by_cases hr : rest = []
+    · subst hr
+      obtain ⟨x, y, btn, rel, hf⟩ := okFrom_fin_conv cfg.sgrStrict s c h
+      simp only [List.cons_append, List.nil_append, sgrRun, hf, List.length_cons, List.length_nil]
+      exact ⟨_, _, rfl⟩
+    · obtain ⟨s', hc, hok⟩ := okFrom_step_conv cfg.sgrStrict s c rest hr h
+      obtain ⟨evs, st', hrun⟩ := ih s' (i + 1) hok
+      refine ⟨evs, st', ?_⟩
+      simp only [List.cons_append, sgrRun, hc, List.length_cons]
+      rw [hrun]; congr 1; omega
+
 end Tcell.Lemmas.Chunk
